@@ -40,6 +40,7 @@ var c26Assumptions = []string{
 	"while finding " + c26FindKeylessLookupNull + " is listed open, a disagreement on a join that involves a keyless table and whose dolt plan contains a LookupJoin is attributed to it (counted as excluded_known); the pinned sub-test reports it",
 	"while finding " + c26FindMergePrefix + " is listed open, a disagreement on a join over a table that has a prefix index and whose dolt plan contains a MergeJoin is attributed to it (counted as excluded_known); the pinned sub-test reports it",
 	"while finding " + c26FindLookupPrefix + " is listed open, a disagreement on a join over a table that has a prefix index and whose dolt plan contains a LookupJoin is attributed to it (counted as excluded_known); the pinned sub-test reports it",
+	"while finding " + c26FindPrefixLower + " is listed open, a disagreement where dolt returns a subset of the reference rows for a query over a table with a prefix index and dolt's plan uses an index is attributed to it (counted as excluded_known); the pinned sub-test reports it",
 	"while finding " + c26FindKeylessCount + " is listed open, `SELECT COUNT(col) FROM <keyless table>` is not generated (counted as excluded_known); the pinned sub-test reports it",
 }
 
@@ -383,6 +384,32 @@ func c26PinnedLookupPrefix(t *testing.T, srv *vsql.Server, admin *vsql.Session) 
 	return ""
 }
 
+// c26FindPrefixLower: doltIndex.prollyRangesFromSqlRanges keeps an open lower bound open on a
+// prefix-indexed column, so `c > 'a'` (and `c <> 'a'`) over KEY (c(1)) skips every entry whose
+// stored prefix equals the bound although the full value ('aB') is greater.
+const c26FindPrefixLower = "C26-prefix-index-open-lower-bound"
+
+func c26PinnedPrefixLower(t *testing.T, srv *vsql.Server, admin *vsql.Session) string {
+	db := srv.NewDBName()
+	admin.MustExec(t, "CREATE DATABASE "+db)
+	defer admin.Exec("DROP DATABASE " + db)
+	s := srv.Session(t, "pinned", db)
+	defer s.Close()
+	s.MustExec(t, "CREATE TABLE t0 (k0 INT PRIMARY KEY, c1 TEXT NOT NULL, KEY i0 (c1(1)))")
+	s.MustExec(t, "INSERT INTO t0 VALUES (1,'aB'),(2,'a'),(3,'e'),(4,'A')")
+	var bad []string
+	for _, p := range [][2]string{{"SELECT k0 FROM t0 WHERE c1 > 'a'", "(1) (3)"}, {"SELECT k0 FROM t0 WHERE c1 <> 'a'", "(1) (3) (4)"}, {"SELECT k0 FROM t0 WHERE c1 >= 'a'", "(1) (2) (3)"}, {"SELECT k0 FROM t0 WHERE c1 < 'aB'", "(2) (4)"}} {
+		r := s.MustQuery(t, p[0])
+		if got := vsql.Show(r.Sorted()); got != p[1] {
+			bad = append(bad, fmt.Sprintf("%s returned %s want %s", p[0], got, p[1]))
+		}
+	}
+	if len(bad) > 0 {
+		return "t0(k0 PK, c1 TEXT, KEY (c1(1))) = {(1,'aB'),(2,'a'),(3,'e'),(4,'A')}: " + strings.Join(bad, "; ")
+	}
+	return ""
+}
+
 // c26FindKeylessCount: on a keyless table `SELECT COUNT(col) FROM t` (count fast path of
 // kvexec/count_agg.go) tests the NULL-ness of the value field one position to the left of col
 // (keyless value tuples start with the cardinality field).
@@ -487,6 +514,14 @@ func (c *qCase) runQuery(q qQuery) {
 		mismatch = !vsql.EqualStrings(dr.Ordered(), mr.Ordered())
 	} else {
 		mismatch = !vsql.EqualStrings(dr.Sorted(), mr.Sorted())
+	}
+	if mismatch && q.has("prefix_index_table") && vh.OpenFinding("C26", c26FindPrefixLower) {
+		dp, _ := plan()
+		if strings.Contains(strings.Join(dp, "\n"), "IndexedTableAccess") && (q.Limit || qOnly(dr, mr) == "") {
+			c.rec.Excluded(1)
+			c.rec.Class("known:"+c26FindPrefixLower, 1)
+			return
+		}
 	}
 	if mismatch && q.has("prefix_index_join") && vh.OpenFinding("C26", c26FindMergePrefix) {
 		dp, _ := plan()
@@ -683,6 +718,16 @@ func TestVerif_C26(t *testing.T) {
 				return
 			}
 			vh.NoteViolation(t.Name(), "", `{"sql":["CREATE TABLE t0 (k0 INT PRIMARY KEY, c0 VARBINARY(16) NOT NULL, KEY i2 (c0(1)))","CREATE TABLE t1 (k0 INT PRIMARY KEY, c1 VARBINARY(16))","INSERT INTO t0 VALUES (1,0x6100),(2,0x61),(3,0x62)","INSERT INTO t1 VALUES (1,0x6100),(2,0x61)","SELECT /*+ JOIN_ORDER(a,b) LOOKUP_JOIN(a,b) */ a.k0, b.k0 FROM t1 a JOIN t0 b ON a.c1 = b.c0"],"observed":"`+strings.ReplaceAll(msg, `"`, `'`)+`"}`)
+			t.Errorf("%s", msg)
+		}
+	})
+	t.Run("pinned_prefix_index_open_lower_bound", func(t *testing.T) {
+		if msg := c26PinnedPrefixLower(t, srv, admin); msg != "" {
+			if vh.OpenFinding("C26", c26FindPrefixLower) {
+				vh.ReportKnown("C26", c26FindPrefixLower, msg)
+				return
+			}
+			vh.NoteViolation(t.Name(), "", `{"sql":["CREATE TABLE t0 (k0 INT PRIMARY KEY, c1 TEXT NOT NULL, KEY i0 (c1(1)))","INSERT INTO t0 VALUES (1,'aB'),(2,'a'),(3,'e'),(4,'A')","SELECT k0 FROM t0 WHERE c1 > 'a'","SELECT k0 FROM t0 WHERE c1 <> 'a'"],"observed":"`+strings.ReplaceAll(msg, `"`, `'`)+`"}`)
 			t.Errorf("%s", msg)
 		}
 	})
